@@ -9,3 +9,4 @@ def rules(ctx):
     S.c11_rules(ctx)
     S.c01_r8_open_recovery(ctx)
     S.walker_rules(ctx)
+    S.refcount_rules(ctx)
